@@ -56,6 +56,9 @@ pub enum Step {
     Wait(u64),
     /// real (wall-clock) pause of the client, milliseconds: the clock read by the cookie check moves on
     RealSleep(u64),
+    /// several frames handed to the transport in ONE write (coalesced segments); the client switches its
+    /// cipher inside the batch right after an Encryption Response, as a pipelining client does
+    Batch(Vec<Step>),
 }
 
 /// answers of the throttled server-side transport to `poll_write`
@@ -339,6 +342,19 @@ impl Runner<'_> {
                 let f = frame(&p);
                 self.write_plain(&f).await;
                 self.after_frame(step, &p);
+                self.settle_and_drain().await;
+            }
+            Step::Batch(inner) => {
+                let mut buf = vec![];
+                for st in inner {
+                    let Some(p) = self.payload_of(st) else { continue };
+                    self.inputs.push(format!("F{}", &hex(&p)[1..]));
+                    let f = frame(&p);
+                    self.inputs1.push(format!("R{}", &hex(&f)[1..]));
+                    buf.extend(match self.enc.as_mut() { Some((c2s, _)) => c2s.enc(&f), None => f.clone() });
+                    self.after_frame(st, &p);
+                }
+                let _ = self.client.write_all(&buf).await;
                 self.settle_and_drain().await;
             }
             Step::Seg { inner, cuts, events } => {
